@@ -334,10 +334,23 @@ recv_data_ref = []      # filled below (mutual recursion _finish_recv_packet <->
 finish_recv_packet = Spec(
     PROP, 'connection', 'SSHConnection._finish_recv_packet', self_class='SSHConnection',
     params=dict(pkttype='int', seq='int', _task='none', is_async='bool'), classes=RCLASSES,
-    stubs={'self._recv_data': contract_stub(lambda: recv_data_ref[0])},
-    modifies=['_auth_final', '_recv_seq', '_recv_handler', '_inpbuf', '_transport'],
+    stubs={'self._recv_data': contract_stub(lambda: recv_data_ref[0]),
+           'self._send_disconnect': lambda cx: named(contract_stub(lambda: send_disconnect), 'send_disconnect')(cx),
+           'self._force_close': force_close_stub},
+    # misc.ProtocolError.__init__(reason, lang=DEFAULT_LANG) -> DisconnectError(DISC_PROTOCOL_ERROR = 2, reason, lang)
+    exc_attrs={'ProtocolError': lambda args, kw: {'code': VInt(2), 'reason': args[0], 'lang': VStr('en-US')}},
+    # (includes everything the re-entered pump _recv_data may write on the asynchronous call)
+    modifies=['_auth_final', '_recv_seq', '_recv_handler', '_inpbuf', '_transport', '_send_seq', '_recv_blocksize',
+              '_recv_macsize', '_packet', '_pktlen', '_banner_lines'],
     ensures=[('handler-rearmed-or-pump-ran', lambda c: z3.Or(
         is_async(c), c.eq(c.newv('_recv_handler'), VTag('method:SSHConnection._recv_pkthdr')))),
+             # fix c66417b: as a task done-callback the rollover error cannot be raised to anybody, so the
+             # connection must be torn down here (it used to be left open with the error lost in the loop's handler)
+             ('async-rollover-closes-the-connection', lambda c: z3.Implies(
+                 z3.And(is_async(c), z3.Not(c.is_none(c.oldv('_transport'))), c.old('_recv_seq') == 0xffffffff,
+                        c.is_none(c.oldv('_recv_encryption'))),
+                 z3.And(c.is_none(c.newv('_transport')), z3.BoolVal(
+                     c.ex.spec is not finish_recv_packet or len(c.events('force_close')) == 1)))),
     ],
     requires=lambda c: z3.And(c.arg('seq') >= 0, c.arg('seq') < 2 ** 32, c.old('_recv_seq') >= 0,
                               c.old('_recv_seq') < 2 ** 32, c.old('_recv_blocksize') >= 8,
